@@ -196,6 +196,7 @@ class C07(Check):
     EXAMPLES = {"quick": 300, "thorough": 4000}
     MIN_EVALS = {"quick": 800, "thorough": 20000}
     EXHAUSTIVE = True
+    PROBE_GROUP = "eclio"
     LEVEL_TEXT = ("Generated-input search with three independent oracles: a Python codec written from the published "
                   "layout decodes the library's bytes and must reproduce the input; its encoder must produce the same "
                   "bytes; the library reader must return the input from both files under permuted random access. "
